@@ -147,7 +147,7 @@ def copy_spec(a):
 
 
 class CopyEmitter(StepEmitter):
-    properties = ('C06', 'C03')
+    properties = ('C06', 'C03', 'C01', 'C02')
 
     def cases(self):
         return ['%s/%d/%s' % (t, nx, h) for t in ('plain', 'transforming') for nx in (0, 1, 2) for h in ('first-use', 'template-exists')]
@@ -367,7 +367,7 @@ def compile_spec(a):
 
 
 class CompileEmitter(CopyEmitter):
-    properties = ('C03', 'C06', 'C07')
+    properties = ('C03', 'C06', 'C07', 'C01', 'C02')
 
     def cases(self):
         return ['%s/%s/%s/%s/%s' % (p, n, f, h, d) for p in ('plain', 'uses-pch', 'pch-from-source')
@@ -560,7 +560,7 @@ def link_spec(a):
 
 
 class LinkEmitter(CompileEmitter):
-    properties = ('C03', 'C06')
+    properties = ('C03', 'C06', 'C01', 'C02')
 
     def cases(self):
         return ['%s/%s/%s/%s/%s' % (t, n, h, d, w) for t in ('plain', 'transforming') for n in ('all', '1', '2')
@@ -722,15 +722,20 @@ class NinjaLink(LinkEmitter):
 # (global variable, variable) pair tagged with the name it was asked for.
 
 class GetFlags(StepEmitter):
-    properties = ('C01', 'C02', 'C03')
+    properties = ('C01', 'C02', 'C03', 'C06')
 
     def make_tool(self, cx, kinds):
         attrs = {'lang': 'c', 'family': 'native', 'global_flags': PList([thing('tool_global_flag')]),
                  'global_libs': PList([thing('tool_global_lib')])}
         for kind in kinds:
             attrs[kind + '_var'] = kind + '-name'
-        attrs['flags'] = OpaqueFn('tool.flags', lambda I, a, k: PList([thing('global_option_flag')]))
-        attrs['lib_flags'] = OpaqueFn('tool.lib_flags', lambda I, a, k: PList([thing('global_option_lib')]))
+        def tool_fn(name, tok):
+            def h(I, a, k):
+                I.events.append(('given_options', name, a[0] if a else None))
+                return PList([thing(tok)])
+            return OpaqueFn(name, h)
+        attrs['flags'] = tool_fn('tool.flags', 'global_option_flag')
+        attrs['lib_flags'] = tool_fn('tool.lib_flags', 'global_option_lib')
         return Obj(object, attrs)
 
     def backend(self):
@@ -746,7 +751,15 @@ class GetFlags(StepEmitter):
 
     def own(self, present, name):
         items = [thing(name + '0'), thing(name + '1')] if present else []
-        return OpaqueFn('rule.' + name, lambda I, a, k: PList(list(items))), items
+
+        def h(I, a, k):
+            I.events.append(('given_options', 'rule.' + name, a[0] if a else None))
+            return PList(list(items))
+        return OpaqueFn('rule.' + name, h), items
+
+    def options_of_the_tools_language(self, out, a, want):
+        given = [e for e in a.events if e[0] == 'given_options']
+        out['global_options_are_those_of_the_tool_that_runs'] = z3.BoolVal(bool(given) and all(e[2] is want for e in given))
 
     def check_kind(self, out, a, variables, name, own_items, label):
         regs = [e for e in a.events if e[0] == 'flags_vars' and e[1] == name]
@@ -778,8 +791,12 @@ class CompileGetFlags(GetFlags):
     def params(self, cx, case):
         fn, items = self.own(case == 'own-options', 'flags')
         cx.ghost('own_flags', items)
-        rule = Obj(CO.CompileSource, {'compiler': self.make_tool(cx, ['flags']), 'flags': fn})
-        bi = PDict({'compile_options': PDict({'c': thing('global_options')})})
+        # the source was declared with another language than the compiler that runs on it (lang= override)
+        rule = Obj(CO.CompileSource, {'compiler': self.make_tool(cx, ['flags']), 'flags': fn,
+                                      'file': Obj(object, {'lang': 'c++'})})
+        gopts = thing('global_options_of_c')
+        cx.ghost('gopts', gopts)
+        bi = PDict({'compile_options': PDict({'c': gopts, 'c++': thing('global_options_of_cxx')})})
         return {'backend': self.backend(), 'rule': rule, 'build_inputs': bi, 'buildfile': Obj(object, {})}
 
     def opaque_calls(self):
@@ -789,6 +806,7 @@ class CompileGetFlags(GetFlags):
         out = {}
         variables = r[0] if isinstance(r, tuple) else (r.items[0] if isinstance(r, PList) else None)
         self.check_kind(out, a, variables, 'flags-name', a.own_flags, 'compile_flags')
+        self.options_of_the_tools_language(out, a, a.gopts)
         return out
 
 
